@@ -9,6 +9,7 @@ verus! {
 global size_of usize == 8;
 
 //@include prelude/inc_pwl_core.rs
+//@include prelude/lp_oracle_spec.rs
 
 impl<N, const K: usize> Tree<N, K> {
 // as in unit pwl_compose_pruned: contract of unit tree_graph minus the arena-size precondition (assumed: fewer than 2^31 nodes)
@@ -25,13 +26,17 @@ pub fn remove_child(&mut self, parent: TreeIndex, label: Label) -> (r: N)
 }
 
 impl<const K: usize> AffTree<K> {
-// ASSUMED (LP based, body not verified): edges leaving node 0 are reported feasible; otherwise ANY answer
-#[verifier::external_body]
-pub fn is_edge_feasible(&self, parent_idx: TreeIndex, node_idx: TreeIndex) -> (r: bool)
-    ensures parent_idx == 0 ==> r
-{ unimplemented!() }
+// contract proved in unit pwl_feasible on the real body (root shortcut; verdicts only from Infeasible evidence); the LP layer behind it stays an oracle
+//@assumed units/pwl_feasible.rs | is_edge_feasible
 //@assumed units/pwl_compose_pruned.rs | update_node
 }
+
+// generate_infeasible!("infeasible"): the explore of the arithmetic schemas (rule M1)
+//@fn src/pwl/impl_ops.rs | macro generate_infeasible | explore | as=arith_explore | nth=0
+//@spec
+    requires context.tree.wf(), parent != 0 ==> context.a().dom().contains(child) && context.a()[child].parent == Some(parent)
+    ensures parent == 0 ==> r
+//@end
 
 // node-level contracts of the four arithmetic schemas, proved in unit pwl_schema
 //@assumed units/pwl_schema.rs | addition_schema_update_decision
@@ -85,7 +90,7 @@ impl<const K: usize> AffTree<K> {
 //@bodysub ndarray::OwnedRepr<f64> => OwnedRepr<f64>
 //@bodysub C::update_terminal( => addition_schema_update_terminal(
 //@bodysub C::update_decision( => addition_schema_update_decision(
-//@bodysub C::explore(rhs, parent1_idx, child1_idx) => rhs.is_edge_feasible(parent1_idx, child1_idx)
+//@bodysub C::explore( => arith_explore(
 //@bodysub let mut label_created = None; => let mut label_created: Option<usize> = None;
 //@bodysub let mut created_children = 0; => let mut created_children: usize = 0;
 //@bodysub let mut skipped_children = 0; => let mut skipped_children: usize = 0;
@@ -257,7 +262,7 @@ impl<const K: usize> AffTree<K> {
 //@bodysub ndarray::OwnedRepr<f64> => OwnedRepr<f64>
 //@bodysub C::update_terminal( => subtraction_schema_update_terminal(
 //@bodysub C::update_decision( => subtraction_schema_update_decision(
-//@bodysub C::explore(rhs, parent1_idx, child1_idx) => rhs.is_edge_feasible(parent1_idx, child1_idx)
+//@bodysub C::explore( => arith_explore(
 //@bodysub let mut label_created = None; => let mut label_created: Option<usize> = None;
 //@bodysub let mut created_children = 0; => let mut created_children: usize = 0;
 //@bodysub let mut skipped_children = 0; => let mut skipped_children: usize = 0;
@@ -429,7 +434,7 @@ impl<const K: usize> AffTree<K> {
 //@bodysub ndarray::OwnedRepr<f64> => OwnedRepr<f64>
 //@bodysub C::update_terminal( => multiplication_schema_update_terminal(
 //@bodysub C::update_decision( => multiplication_schema_update_decision(
-//@bodysub C::explore(rhs, parent1_idx, child1_idx) => rhs.is_edge_feasible(parent1_idx, child1_idx)
+//@bodysub C::explore( => arith_explore(
 //@bodysub let mut label_created = None; => let mut label_created: Option<usize> = None;
 //@bodysub let mut created_children = 0; => let mut created_children: usize = 0;
 //@bodysub let mut skipped_children = 0; => let mut skipped_children: usize = 0;
@@ -601,7 +606,7 @@ impl<const K: usize> AffTree<K> {
 //@bodysub ndarray::OwnedRepr<f64> => OwnedRepr<f64>
 //@bodysub C::update_terminal( => division_schema_update_terminal(
 //@bodysub C::update_decision( => division_schema_update_decision(
-//@bodysub C::explore(rhs, parent1_idx, child1_idx) => rhs.is_edge_feasible(parent1_idx, child1_idx)
+//@bodysub C::explore( => arith_explore(
 //@bodysub let mut label_created = None; => let mut label_created: Option<usize> = None;
 //@bodysub let mut created_children = 0; => let mut created_children: usize = 0;
 //@bodysub let mut skipped_children = 0; => let mut skipped_children: usize = 0;
